@@ -228,7 +228,8 @@ def use_serial_pool(on: bool = True):
             mod.Pool = SerialPool if on else _REAL_POOLS[mod]
 
 
-use_serial_pool(True)
+if not os.environ.get("VERIF_REAL_POOL"):  # helper processes that must see the real pool from their first call set it
+    use_serial_pool(True)
 
 
 @contextlib.contextmanager
